@@ -21,6 +21,7 @@ import (
 	"io"
 	"net"
 	nethttp "net/http"
+	"net/http/httptest"
 	"os"
 	"path/filepath"
 	"sort"
@@ -411,6 +412,20 @@ func claimDefects() []claimDefect {
 			m["nbf"] = now.Add(-time.Minute).Unix()
 		}),
 		d("exp-string", true, func(m map[string]any) { m["exp"] = "never" }),
+		// numeric extremes of the time claims: zero / negative timestamps, lifetimes of centuries (overflowing arithmetic)
+		d("exp-zero", true, func(m map[string]any) { m["exp"] = int64(0) }),
+		d("exp-zero-old-iat-nbf", true, func(m map[string]any) { m["exp"], m["iat"], m["nbf"] = int64(0), int64(1), int64(1) }),
+		d("exp-one", true, func(m map[string]any) { m["exp"] = int64(1) }),
+		d("exp-negative", true, func(m map[string]any) { m["exp"] = int64(-1) }),
+		d("nbf-iat-zero", true, func(m map[string]any) { m["iat"], m["nbf"] = int64(0), int64(0) }),
+		d("life-292y", true, func(m map[string]any) { m["exp"] = now.Unix() + 292*365*86400 }),
+		d("life-293y", true, func(m map[string]any) { m["exp"] = now.Unix() + 293*365*86400 + 80*86400 }),
+		d("life-300y", true, func(m map[string]any) { m["exp"] = now.Unix() + 300*365*86400 }),
+		d("life-580y", true, func(m map[string]any) { m["exp"] = now.Unix() + 580*365*86400 }),
+		d("life-1000y", true, func(m map[string]any) { m["exp"] = now.Unix() + 1000*365*86400 }),
+		d("exp-maxint64", true, func(m map[string]any) { m["exp"] = int64(9223372036854775807) }),
+		d("exp-maxint64-div-1e9", true, func(m map[string]any) { m["exp"] = int64(9223372036) }),
+		d("exp-float", false, func(m map[string]any) { m["exp"] = float64(now.Unix()+3600) + 0.5 }),
 		d("extra-claim", false, func(m map[string]any) { m["admin"] = true }),
 	}
 }
@@ -572,7 +587,15 @@ func acceptable(s tokenSpec, signers []*signer, genuine bool) bool {
 	if len(jti) != 36 {
 		return false
 	}
-	num := func(k string) (int64, bool) { v, ok := c[k].(int64); return v, ok }
+	num := func(k string) (int64, bool) {
+		switch v := c[k].(type) {
+		case int64:
+			return v, true
+		case float64: // NumericDate may carry a fraction (RFC 7519)
+			return int64(v), true
+		}
+		return 0, false
+	}
 	iat, ok1 := num("iat")
 	nbf, ok2 := num("nbf")
 	exp, ok3 := num("exp")
@@ -850,6 +873,106 @@ func TestVerifC04(t *testing.T) {
 				}
 			}
 			_ = e.Shutdown()
+		}
+	}
+
+	// ---- interleavings of concurrent requests on the ONE authentication middleware object the engine installs on all
+	// its listeners. Echo wraps the matched route's handler in the global middleware on every request (step "wrap":
+	// mw(next)) and then runs the result (step "run"); concurrent requests interleave these steps. Every interleaving of
+	// 2 and of 3 requests (anonymous public, anonymous /internal, authorised /internal) is enumerated; the oracle is the
+	// statement's: an /internal handler runs only for a request carrying an acceptable token, and the handler that runs
+	// for a request is that request's own.
+	if r.Mine(1) {
+		mws, err := auth.eng.VerifCaptureAuthMiddleware()
+		if err != nil || len(mws) != 1 {
+			t.Fatalf("harness: could not capture the authentication middleware: %v (%d)", err, len(mws))
+		}
+		mw := mws[0]
+		type reqT struct {
+			name, path, authz string
+			internal, ok      bool
+		}
+		reqs := []reqT{
+			{"anon-public", "/public/probe", "", false, false},
+			{"anon-internal", "/internal/probe", "", true, false},
+			{"authorised-internal", "/internal/probe/sub", "Bearer " + goodTok, true, true},
+		}
+		e := echo.New()
+		var orders [][]int // sequences of request indexes, each index twice (wrap, run)
+		var gen func(cur []int, left []int)
+		gen = func(cur []int, left []int) {
+			done := true
+			for i, l := range left {
+				if l > 0 {
+					done = false
+					nl := append([]int{}, left...)
+					nl[i]--
+					gen(append(append([]int{}, cur...), i), nl)
+				}
+			}
+			if done {
+				orders = append(orders, cur)
+			}
+		}
+		for _, subset := range [][]int{{0, 2}, {1, 2}, {0, 1}, {0, 1, 2}, {2, 2}} {
+			left := make([]int, len(subset))
+			for i := range left {
+				left[i] = 2
+			}
+			orders = nil
+			gen(nil, left)
+			for _, ord := range orders {
+				ran := make([]string, len(subset)) // which handler ran for request slot i
+				wrapped := make([]echo.HandlerFunc, len(subset))
+				ctxs := make([]echo.Context, len(subset))
+				for i, ri := range subset {
+					rq := reqs[ri]
+					hr, _ := nethttp.NewRequest("GET", rq.path, nil)
+					hr.RequestURI = rq.path
+					if rq.authz != "" {
+						hr.Header.Set("Authorization", rq.authz)
+					}
+					ctxs[i] = e.NewContext(hr, httptest.NewRecorder())
+				}
+				seen := make([]int, len(subset))
+				for _, slot := range ord {
+					slot := slot
+					if seen[slot] == 0 {
+						own := fmt.Sprintf("handler-of-slot-%d", slot)
+						wrapped[slot] = mw(func(c echo.Context) error {
+							// record for which CONTEXT this handler body runs
+							for k := range ctxs {
+								if ctxs[k] == c {
+									ran[k] += own + ";"
+								}
+							}
+							return nil
+						})
+					} else {
+						_ = wrapped[slot](ctxs[slot])
+					}
+					seen[slot]++
+				}
+				r.Eval(fmt.Sprintf("mw-interleaving|%v|%v", subset, ord))
+				for i, ri := range subset {
+					rq := reqs[ri]
+					own := fmt.Sprintf("handler-of-slot-%d;", i)
+					r.Outcome(fmt.Sprintf("mw-interleaving %s ran=%v", rq.name, ran[i] != ""))
+					if ran[i] != "" && ran[i] != own {
+						r.Violation("C04|middleware-interleaving|foreign-handler-ran|"+rq.name,
+							fmt.Sprintf("interleaving %v of requests %v: for %s the handler %q ran instead of its own", ord, subset, rq.name, ran[i]),
+							map[string]any{"subset": subset, "order": ord})
+					}
+					if rq.internal && !rq.ok && ran[i] != "" {
+						r.Violation("C04|middleware-interleaving|internal-handler-ran-without-token|"+rq.name,
+							fmt.Sprintf("interleaving %v of requests %v: a handler ran for %s", ord, subset, rq.name),
+							map[string]any{"subset": subset, "order": ord})
+					}
+					if rq.ok && ran[i] == "" {
+						r.Observation("authorised-request-not-served-in-interleaving", fmt.Sprint(subset, ord))
+					}
+				}
+			}
 		}
 	}
 
